@@ -42,7 +42,7 @@ CfgOf(h) == [p \in Pipes |->
 
 Ev(e) == l <= Len(Log) /\ Log[l].ev = e
 
-TInit == /\ LInit /\ l = 1 /\ curl = 0 /\ icurl = 0 /\ pbind = {} /\ done = TRUE /\ TLCSet(1, 1)
+TInit == /\ LInit /\ l = 1 /\ curl = 0 /\ icurl = 0 /\ pbind = {} /\ done = TRUE /\ TLCSet(1, 1) /\ TLCSet(2, 0)
 
 TReset == /\ Ev("reset") /\ done /\ curl = 0 /\ icurl = 0
           /\ cfg' = CfgOf(Log[l])
@@ -89,6 +89,11 @@ TInnerStart == /\ Ev("inner_start") /\ curl # 0 /\ icurl = 0
                      /\ InnerN(r) \in Ents /\ MayStartInner(r)
                      /\ Log[curl].k = "receiver" /\ Log[curl].id = r /\ Log[curl].ev = "start"
                      /\ starts' = [starts EXCEPT ![InnerN(r)] = @ + 1]
+                     \* reported separately (narrow signature), does not stop the validation of the rest of the
+                     \* lifetime: the shared object is started by the first of its nodes, possibly before the
+                     \* consumers of its OTHER signals have started
+                     /\ IF ~SharedDownstreamStarted(r)
+                        THEN TLCSet(2, TLCGet(2) + 1) /\ PrintT(<<"SHARED_EARLY_AT", l>>) ELSE TRUE
                /\ icurl' = l /\ l' = l + 1
                /\ UNCHANGED <<cvars, startRes, stops, stopRes, svcStart, svcStop, ivars, curl, pbind, done>>
 TInnerStartEnd == /\ Ev("inner_start_end") /\ icurl # 0 /\ Log[icurl].ev = "inner_start" /\ Log[icurl].id = Log[l].id
@@ -152,6 +157,6 @@ TraceInv == ~done => (/\ \A n \in Ents : starts[n] <= 1 /\ stops[n] <= 1
                       /\ (\E n \in Ents : stops[n] > 0) => svcStart # "none")
 
 HighWater == IF l > TLCGet(1) THEN TLCSet(1, l) ELSE TRUE
-Accepted == IF TLCGet(1) = Len(Log) + 1 THEN TRUE
+Accepted == IF TLCGet(1) = Len(Log) + 1 THEN PrintT(<<"SHARED_EARLY", TLCGet(2)>>)
             ELSE PrintT(<<"REJECTED_AT", TLCGet(1), Len(Log)>>) /\ FALSE
 =============================================================================
